@@ -17,9 +17,27 @@ import (
 //	(b) against the independent closed-form reference evaluated at the scaled parameters (1e-9 relative),
 //	(c) in Coq: generated model over Q and closed-form membership at the scaled parameters (k >= -24).
 type scaledDesc struct {
-	Shape Shape `json:"shape"` // at scale 1
-	K     int   `json:"k"`     // scale = 2^k
-	P     V3    `json:"p"`     // at scale 1
+	Shape Shape   `json:"shape"`       // at scale 1
+	K     int     `json:"k"`           // scale = 2^k ...
+	S     float64 `json:"s,omitempty"` // ... unless S != 0: scale = S (decimal micro scales 1e-9 ...: the scaling is
+	//                                    then not exact, homogeneity is judged at 1e-9 instead of 1e-12)
+	P V3 `json:"p"` // at scale 1
+}
+
+// scaledPairDesc: a Lipschitz pair at a micro / macro scale (judged by the harness, slack relative to the scale)
+type scaledPairDesc struct {
+	Shape Shape   `json:"shape"`
+	K     int     `json:"k"`
+	S     float64 `json:"s,omitempty"`
+	P     V3      `json:"p"`
+	Q     V3      `json:"q"`
+}
+
+func scaleFactor(k int, s float64) (sc float64, homTol float64, label string) {
+	if s != 0 {
+		return s, 1e-9, fmt.Sprintf("scaled:decimal:1e%d", int(math.Round(math.Log10(s))))
+	}
+	return math.Ldexp(1, k), 1e-12, fmt.Sprintf("scaled:2^[%d..%d]", (k+40)/10*10-40, (k+40)/10*10-31)
 }
 
 // scaleShape multiplies every length of the shape by f (directions — the plane normal — are not lengths).
@@ -34,13 +52,16 @@ func scaleShape(s Shape, f float64) Shape {
 	for _, c := range s.Sub {
 		out.Sub = append(out.Sub, scaleShape(c, f))
 	}
+	for _, lp := range s.Pts {
+		out.Pts = append(out.Pts, LP{lp.P.mul(f), lp.R * f})
+	}
 	return out
 }
 
 func (h *H) addScaled(d scaledDesc) {
-	sc := math.Ldexp(1, d.K)
+	sc, homTol, label := scaleFactor(d.K, d.S)
 	ss, sp := scaleShape(d.Shape, sc), d.P.mul(sc)
-	c := hx.Case{Kind: "scaled", Desc: d, Key: key(d), Nontriv: d.K != 0, Coq: "CGo", FailKey: degenerate(d.Shape)}
+	c := hx.Case{Kind: "scaled", Desc: d, Key: key(d), Nontriv: sc != 1, Coq: "CGo", FailKey: degenerate(d.Shape)}
 	base, e0 := callField(d.Shape, d.P)
 	got, e1 := callField(ss, sp)
 	scale0 := scaleOf(d.Shape, d.P)
@@ -48,30 +69,46 @@ func (h *H) addScaled(d scaledDesc) {
 	case e0 != "" || e1 != "":
 		c.GoFail = "panic: " + e0 + e1
 	case math.IsNaN(got) || math.IsInf(got, 0) || math.IsNaN(base):
-		c.GoFail = fmt.Sprintf("value %v at scale 2^%d (%v at scale 1)", got, d.K, base)
+		c.GoFail = fmt.Sprintf("value %v at scale %v (%v at scale 1)", got, sc, base)
 	default:
-		if math.Abs(got-sc*base) > 1e-12*sc*scale0 {
-			c.GoFail = fmt.Sprintf("%s not homogeneous: at scale 2^%d the value is %v = 2^%d * %v, but the value at scale 1 is %v",
-				d.Shape.T, d.K, got, d.K, got/sc, base)
-		} else if want, ok := combine(ss, sp); ok {
-			if want != got {
-				c.GoFail = fmt.Sprintf("%s value %v at scale 2^%d differs from the pointwise combination %v of its operands' values", d.Shape.T, got, d.K, want)
-			}
+		if math.Abs(got-sc*base) > homTol*sc*scale0 {
+			c.GoFail = fmt.Sprintf("%s not homogeneous: at scale %v the value is %v = scale * %v, but the value at scale 1 is %v",
+				d.Shape.T, sc, got, got/sc, base)
+		} else if want, ok := combine(ss, sp); ok && want != got {
+			c.GoFail = fmt.Sprintf("%s value %v at scale %v differs from the pointwise combination %v of its operands' values", d.Shape.T, got, sc, want)
 		} else if want, ok := ref(ss, sp); ok {
-			rt := 1e-9 * sc * scale0
-			if d.Shape.T == "rcone" {
-				rt = 1e-7 * sc * scale0
-			}
+			rt := refTol(d.Shape) * sc * scale0
 			if math.Abs(want-got) > rt {
-				c.GoFail = fmt.Sprintf("%s value %v at scale 2^%d differs from the reference distance %v (relative to the scale: %v vs %v)",
-					d.Shape.T, got, d.K, want, got/sc, want/sc)
+				c.GoFail = fmt.Sprintf("%s value %v at scale %v differs from the reference distance %v (relative to the scale: %v vs %v)",
+					d.Shape.T, got, sc, want, got/sc, want/sc)
 			}
 		}
-		if d.K >= -24 {
+		if sc >= 5e-8 && coqable(d.Shape) {
 			c.Coq = fmt.Sprintf("(CEval false %s %s %s %s)", coqShape(ss), vq(sp), fq(got), fq(1e-9*sc*scale0))
 		}
 	}
-	h.run.Count(fmt.Sprintf("scaled:2^[%d..%d]", (d.K+40)/10*10-40, (d.K+40)/10*10-31))
+	h.run.Count(label)
+	h.run.Add(c)
+}
+
+// addScaledPair: |f p - f q| <= |p - q| at the scale, slack relative to the scale
+func (h *H) addScaledPair(d scaledPairDesc) {
+	sc, _, label := scaleFactor(d.K, d.S)
+	ss, sp, sq := scaleShape(d.Shape, sc), d.P.mul(sc), d.Q.mul(sc)
+	c := hx.Case{Kind: "lip-scaled", Desc: d, Key: key(d), Nontriv: d.P != d.Q, Coq: "CGo", FailKey: degenerate(d.Shape)}
+	fp, e1 := callField(ss, sp)
+	fqv, e2 := callField(ss, sq)
+	dist := sp.sub(sq).norm()
+	scale := sc * scaleOf(d.Shape, d.P)
+	switch {
+	case e1 != "" || e2 != "":
+		c.GoFail = "panic: " + e1 + e2
+	case math.IsNaN(fp) || math.IsNaN(fqv) || math.IsInf(fp, 0) || math.IsInf(fqv, 0):
+		c.GoFail = fmt.Sprintf("values %v, %v at scale %v", fp, fqv, sc)
+	case math.Abs(fp-fqv) > dist*(1+1e-9)+1e-12*scale:
+		c.GoFail = fmt.Sprintf("at scale %v: |f p - f q| = %v > |p - q| = %v (ratio %v)", sc, math.Abs(fp-fqv), dist, math.Abs(fp-fqv)/dist)
+	}
+	h.run.Count("lip-" + label)
 	h.run.Add(c)
 }
 
@@ -81,7 +118,18 @@ func fixedScaled(r *hx.Rng) []scaledDesc {
 	for _, t := range primitives {
 		s := genPrimitive(r, t)
 		for _, k := range []int{-40, -30, -20, -12, -10, -8, 10, 20} {
-			out = append(out, scaledDesc{s, k, genPointNear(r, s)})
+			out = append(out, scaledDesc{Shape: s, K: k, P: genPointNear(r, s)})
+		}
+	}
+	// every operator as the root (Translate with an ordinary offset: at the micro scales it becomes a tiny one)
+	for _, t := range []string{"union", "intersect", "subtract", "translate"} {
+		a, b := genPrimitive(r, hx.Pick(r, primitives)), genPrimitive(r, hx.Pick(r, primitives))
+		s := Shape{T: t, Sub: []Shape{a, b}}
+		if t == "translate" {
+			s = Shape{T: t, A: genPos(r), Sub: []Shape{a}}
+		}
+		for _, sc := range regionScales {
+			out = append(out, scaledDesc{Shape: s, K: sc.K, S: sc.S, P: genPointNear(r, s)})
 		}
 	}
 	return out
